@@ -110,6 +110,14 @@ func (w *World) canon(v ssa.Value, d int) string {
 			if s, ok := w.canonStructResultField(y, x.Field, d); ok {
 				return s
 			}
+		case *ssa.Extract:
+			if c, isC := y.Tuple.(*ssa.Call); isC {
+				if tup, isT := c.Type().(*types.Tuple); isT {
+					if s, ok := w.canonStructResultFieldAt(c, y.Index, tup.Len(), x.Field, d); ok {
+						return s
+					}
+				}
+			}
 		}
 		return w.canon(x.X, d+1) + "." + fieldName(x.X.Type(), x.Field)
 	case *ssa.IndexAddr:
@@ -738,6 +746,16 @@ func (w *World) canonFieldCell(a *ssa.Alloc, f int, at ssa.Instruction, d int) (
 					continue
 				}
 			}
+			if ex, isEx := wd.Value.(*ssa.Extract); isEx {
+				if c, isC := ex.Tuple.(*ssa.Call); isC {
+					if tup, isT := c.Type().(*types.Tuple); isT {
+						if s, ok := w.canonStructResultFieldAt(c, ex.Index, tup.Len(), f, d+1); ok {
+							set[s] = true
+							continue
+						}
+					}
+				}
+			}
 			set[w.canon(wd.Value, d+2)+"."+fieldName(a.Type(), f)] = true
 			continue
 		}
@@ -767,6 +785,11 @@ func (w *World) canonFieldCell(a *ssa.Alloc, f int, at ssa.Instruction, d int) (
 // (a parameter object filled in field by field); parameters are bound to the
 // call's arguments.
 func (w *World) canonStructResultField(c *ssa.Call, f int, d int) (string, bool) {
+	return w.canonStructResultFieldAt(c, 0, 1, f, d)
+}
+
+// canonStructResultFieldAt: the same for result number ri of a function with nres results.
+func (w *World) canonStructResultFieldAt(c *ssa.Call, ri, nres int, f int, d int) (string, bool) {
 	fn := c.Common().StaticCallee()
 	if fn == nil || !w.InModule(fn) || fn.Blocks == nil || len(fn.Params) != len(c.Common().Args) || len(w.inlineEnv) >= 4 || d > 10 {
 		return "", false
@@ -777,10 +800,14 @@ func (w *World) canonStructResultField(c *ssa.Call, f int, d int) (string, bool)
 		if !ok || b == fn.Recover {
 			continue
 		}
-		if len(rt.Results) != 1 {
+		if len(rt.Results) != nres || (nres > 1 && ri >= nres) {
 			return "", false
 		}
-		ld, ok := rt.Results[0].(*ssa.UnOp)
+		// the value results are named as the function hands them back when it succeeds
+		if nres > 1 && errResultIndex(fn) == nres-1 && w.errState(rt) == triNonNil {
+			continue
+		}
+		ld, ok := rt.Results[ri].(*ssa.UnOp)
 		if !ok || ld.Op != token.MUL {
 			return "", false
 		}
